@@ -46,7 +46,8 @@ pub enum Record {
 
 pub struct PropDef {
     pub id: &'static str,
-    pub generate: fn(u64, Tier) -> Record,
+    /// (verif_seed, run index, tier) -> record
+    pub generate: fn(u64, u64, Tier) -> Record,
     pub check: fn(&Record, &mut Counters) -> Verdict,
     pub candidates: fn(&Record) -> Vec<Record>,
     pub runs_quick: u64,
@@ -103,7 +104,7 @@ pub fn run_slice(def: &PropDef, verif_seed: u64, slice: u64, total: u64, tier: T
     let mut digest = 0u64;
     while idx < total {
         let seed = run_seed(verif_seed, def.id, idx);
-        let rec = (def.generate)(seed, tier);
+        let rec = (def.generate)(verif_seed, idx, tier);
         let v = (def.check)(&rec, &mut res.counters);
         res.runs += 1;
         digest = crate::rng::combine(digest, v.sig.unwrap_or(1) ^ (v.violation.is_some() as u64) << 7);
@@ -597,7 +598,7 @@ pub fn main_with(defs: &[PropDef]) -> i32 {
             let Some(def) = args.get(1).and_then(|i| find(i)) else { return 2 };
             let idx: u64 = args.get(2).and_then(|s| s.parse().ok()).unwrap_or(0);
             let seed: u64 = std::env::var("VERIF_SEED").ok().and_then(|s| s.parse().ok()).unwrap_or(1);
-            let rec = (def.generate)(run_seed(seed, def.id, idx), Tier::Quick);
+            let rec = (def.generate)(seed, idx, Tier::Quick);
             println!("{}", serde_json::to_string_pretty(&rec).unwrap());
             let mut c = Counters::default();
             let v = (def.check)(&rec, &mut c);
